@@ -199,6 +199,11 @@ fn expected(v: &Value, p: &Parser) -> bool {
     if v.ver != p.ver {
         return false;
     }
+    // concatenated keys: only the syntax-only text type with the same header takes them (any base64 body)
+    if let Some(h) = v.class.strip_prefix("concat.") {
+        let phdr = p.class.strip_prefix("pke-").unwrap_or(p.class);
+        return !p.semantic && phdr == h && matches!(p.class, "local" | "public" | "secret" | "pke-public" | "pke-secret");
+    }
     let same = v.class == p.class;
     // Public/PkePublic and Secret/PkeSecret share their text header by design
     let family = |c: &str| match c {
@@ -322,6 +327,28 @@ pub fn run(opts: &Opts) {
     #[cfg(feature = "ffi")]
     collect!(V3Lc, V4Na);
     vector_values(&mut vals);
+    // concatenations of valid key encodings of one version (secret || public, secret || secret, a secret with
+    // another key between its halves, ...): no parser's kind - a decoder that looks at the first and the last
+    // bytes only is satisfied by some of them
+    for ver in 1u8..=4 {
+        let pick = |class: &str| vals.iter().find(|v| v.ver == ver && v.class == class && !v.raw.is_empty()).map(|v| v.raw.clone());
+        let (Some(sk), Some(pk), Some(l)) = (pick("secret"), pick("public"), pick("local")) else { continue };
+        let half = sk.len() / 2;
+        let combos: Vec<Vec<u8>> = vec![
+            [&sk[..], &pk[..]].concat(),
+            [&sk[..], &sk[..]].concat(),
+            [&pk[..], &sk[..]].concat(),
+            [&sk[..half], &l[..], &sk[half..]].concat(),
+            [&sk[..half], &pk[..], &l[..], &sk[half..]].concat(),
+            [&l[..], &pk[..], &pk[..]].concat(),
+            [&pk[..], &l[..], &pk[..]].concat(),
+        ];
+        for raw in combos {
+            for (hdr, class) in [("secret", "concat.secret"), ("public", "concat.public"), ("local", "concat.local")] {
+                vals.push(Value { ver, class, text: format!("k{ver}.{hdr}.{}", crate::b64::encode(&raw)), raw: raw.clone(), origin: "concatenation of valid keys".into() });
+            }
+        }
+    }
     exported_parsers(&mut pars);
     let pars: Vec<Parser> = pars.into_iter().filter(|p| opts.wants_backend(p.backend)).collect();
 
@@ -379,7 +406,7 @@ pub fn run(opts: &Opts) {
     let _ = for_backends_unused;
     rep.set(
         "rule",
-        json!("values: >= 10 generated serialisations per (version, class) for the 15 classes {token.local, token.public, local, public, secret, pke-public, pke-secret, lid, pid, sid, local-wrap.pie, secret-wrap.pie, local-pw, secret-pw, seal} from every backend, plus all positive official vectors; parsers: all 23 FromStr instantiations of each of the six backends; every value is offered to every parser and acceptance must equal (same version and same class; Public/PkePublic and Secret/PkeSecret share a header by design, separated for v1 by modulus size); raw key bytes of every class are offered to every other class's from_raw_bytes path; wrapped/sealed blobs are re-labelled with every other kind/version header and must fail to unwrap; distinct = distinct (value, parser) pairs"),
+        json!("values: >= 10 generated serialisations per (version, class) for the 15 classes {token.local, token.public, local, public, secret, pke-public, pke-secret, lid, pid, sid, local-wrap.pie, secret-wrap.pie, local-pw, secret-pw, seal} from every backend, plus all positive official vectors, plus concatenations of valid key encodings of one version under each key header (class 'concat': nobody's kind); parsers: all 23 FromStr instantiations of each of the six backends; every value is offered to every parser and acceptance must equal (same version and same class; Public/PkePublic and Secret/PkeSecret share a header by design, separated for v1 by modulus size); raw key bytes of every class are offered to every other class's from_raw_bytes path; wrapped/sealed blobs are re-labelled with every other kind/version header and must fail to unwrap; distinct = distinct (value, parser) pairs"),
     );
     rep.finish(opts);
 }
